@@ -391,6 +391,9 @@ func c13LadnIndication(c *core.Ctx, k *core.Case) {
 	if !bytes.Equal(lbuf, wire) {
 		c.Fail(k, "input-mutated", "LadnToModels changed the caller's buffer")
 	}
+	for i := range lbuf {
+		lbuf[i] = 0xa5 // the receive buffer is reused once the converter has returned
+	}
 	ok := len(got) == len(dnns)
 	if ok {
 		for i := range dnns {
